@@ -29,7 +29,11 @@ type Case struct {
 	NameHex string
 	Config  []Cfg
 	Keys    []string // extra keys to extract (besides those derived from the name)
+	Sep     int      // which separator joins the terms of the conjunction over all keys (index into conjSeps)
 }
+
+// conjSeps are ways of writing a conjunction: juxtaposition with ASCII or Unicode white space, AND.
+var conjSeps = []string{" ", " AND ", "\t", "\u3000", "\u2003", "\u00a0", "  ", " \u2028 ", "\u3000AND\u3000"}
 
 func mkCase(name string, cfg []Cfg, keys []string) Case {
 	return Case{Name: name, NameHex: fmt.Sprintf("%x", name), Config: cfg, Keys: keys}
@@ -156,10 +160,6 @@ func Check(c Case) (v vcase.Verdict) {
 			v.Failf("name %q config %v: projection %q extracted %q, reference %q", name, cfgRef, k, got, wv)
 			return
 		}
-		// literal filters (values with backslash/quote characters are C07's domain)
-		if strings.ContainsAny(wv, "\\\"") {
-			continue
-		}
 		// the same term written with unquoted words, when key and value need no quoting
 		if refexpr.BareOK(k, false) && wv != "" && refexpr.BareOK(wv, true) {
 			f, err := benchproc.NewFilter(k + ":" + wv)
@@ -215,6 +215,63 @@ func Check(c Case) (v vcase.Verdict) {
 			m, _ := f.Match(res)
 			if m.All() != probe.want || m.Any() != probe.want || m.Test(0) != probe.want {
 				v.Failf("name %q config %v: filter %s:%s matched=%v, reference extraction %q", name, cfgRef, k, strconv.Quote(probe.val), m.All(), wv)
+				return
+			}
+		}
+	}
+	// all extractions at once: the conjunction of key:value over every key matches; with one
+	// value altered it does not (terms are written quoted, joined in one of several ways)
+	{
+		var ks []string
+		for k := range want {
+			ks = append(ks, k)
+		}
+		sort.Strings(ks)
+		sep := conjSeps[((c.Sep%len(conjSeps))+len(conjSeps))%len(conjSeps)]
+		conj := func(alter int) string {
+			var terms []string
+			for i, k := range ks {
+				val := want[k]
+				if i == alter {
+					val += "~"
+				}
+				terms = append(terms, strconv.Quote(k)+":"+strconv.Quote(val))
+			}
+			return strings.Join(terms, sep)
+		}
+		for _, alter := range []int{-1, len(ks) - 1, 0, len(ks) / 2} {
+			q := conj(alter)
+			f, err := benchproc.NewFilter(q)
+			if err != nil {
+				v.Failf("NewFilter(%s): %v", q, err)
+				return
+			}
+			if m, _ := f.Match(res); m.All() != (alter < 0) {
+				v.Failf("name %q config %v: conjunction %s matched=%v, want %v (reference extractions %v)", name, cfgRef, q, m.All(), alter < 0, want)
+				return
+			}
+		}
+		if len(ks) >= 3 {
+			v.Label("conjunction_over_3+_keys")
+		}
+		// and as one projection: every field of the key agrees with the reference
+		var pp benchproc.ProjectionParser
+		var qs []string
+		for _, k := range ks {
+			if k != ".fullname" { // (next to /keys and .name it is reduced: C08's subject)
+				qs = append(qs, strconv.Quote(k))
+			}
+		}
+		psep := []string{",", " ", "\u3000", " , ", "\u2003"}[((c.Sep%5)+5)%5]
+		proj, err := pp.Parse(strings.Join(qs, psep), nil)
+		if err != nil {
+			v.Failf("Parse(%s): %v", strings.Join(qs, psep), err)
+			return
+		}
+		key := proj.Project(res)
+		for _, f := range proj.Fields() {
+			if got := key.Get(f); got != want[f.Name] {
+				v.Failf("name %q config %v: projection %s: field %q = %q, reference %q", name, cfgRef, strings.Join(qs, psep), f.Name, got, want[f.Name])
 				return
 			}
 		}
@@ -458,7 +515,9 @@ func Gen(t *rapid.T) Case {
 		})
 	}
 	keys := rapid.SliceOfN(rapid.SampledFrom([]string{"/k", "/size", "/a", "/é", "/7", "/k2", "goos", "a", "k", "absent", ".file", ".label", "/gomaxprocs", "gomaxprocs", "/absent", "/gomaxprocs2", "/gomaxprocs_limit", "/gomaxproc", "/sizeclass", "/siz", "/kk", "cpu/model", "a/k", "k/", "/città", "/ąk"}), 0, 6).Draw(t, "keys")
-	return mkCase(name, cfg, keys)
+	c := mkCase(name, cfg, keys)
+	c.Sep = rapid.IntRange(0, len(conjSeps)-1).Draw(t, "sep")
+	return c
 }
 
 func TestC05Rapid(t *testing.T) { vcase.Run(t, "C05", "rapid", Gen, Check) }
